@@ -38,6 +38,6 @@ TOTAL=$(wc -l < $OUT/all); HIT=$(grep -c ' rc=1 ' $OUT/all)
 echo "seeded changes re-run: $TOTAL, detected (rc=1): $HIT"
 grep -v ' rc=1 ' $OUT/all
 # build output of the scratch worktrees
-for k in $(seq 0 $((J-1))); do h=$(echo -n "$OUT/wt$k" | md5sum | cut -c1-8); rm -rf work/target-$h work/target-$h-*; done
+for k in $(seq 0 $((J-1))); do h=$(echo "$OUT/wt$k" | md5sum | cut -c1-8); rm -rf work/target-$h work/target-$h-* work/alt-$h; done
 rm -rf $OUT
 [ "$TOTAL" = "$HIT" ]
